@@ -46,6 +46,16 @@ def run(ctx):
             ctx.item(ident, not used, "id() inside Scope.trace, which the package calls")
         else:
             ctx.item(ident, False, "impure source reachable in the package: %s" % b["what"])
+    from effects.roots import input_path_provenance
+    pbad, pund = input_path_provenance(REPO)
+    for b in pbad:
+        ctx.item("C07/E2/main.py:%d:input-path-provenance" % b["line"], False, b["what"],
+                 confirm=lambda: ctx.monitor("m_purity", "search", 90, ctx.seed), shape=True)
+    for b in pund:
+        ctx.undecided.append("C07/E2/main.py:%d:input-path-provenance: cannot tell where %s comes from" % (b["line"], b["what"]))
+    ctx.item("C07/E2/main_with_args:input-paths-anchored", not pbad and not pund,
+             "every path main_with_args probes or reads is a command-line value or os.path.join(<directory>, name)",
+             confirm=lambda: ctx.monitor("m_purity", "search", 90, ctx.seed), shape=True) if not (pbad or pund) else None
     fields, bad = shared_default_mutations(REPO)
     for f_ in fields:
         sites = [b for b in bad if ("Typemap.%s:" % f_) in b["what"]]
